@@ -17,6 +17,14 @@ structure UCtx where
   T : Path          -- where `destination` resolves on the server
   cwd : PPath       -- the connection's working directory (constant during the call)
 
+/-- what `relative` is on the tree as it is now (the generated table has the one unconditional assignment
+    `destination / path.relative_to(source)`) -/
+theorem relativeOf_eq (s d p : PPath) (wi : Bool) :
+    relativeOf s d p wi = (match p.relativeTo? s with
+      | none => .error .valueError
+      | some rel => .ok (d.join rel)) := by
+  cases wi <;> rfl
+
 /-- the `relative` computation lands below the destination -/
 def RelGood (c : UCtx) : Prop :=
   ∀ rp : Path, rp ≠ [] → (∀ x ∈ rp, SafeName x) →
